@@ -311,7 +311,7 @@ def do_filters_sequence(req):
     """several listings requested one after the other on ONE parser object: each must equal the specification's selection"""
     import pykdebugparser.pykdebugparser as M
     cfg = req['config']
-    stream = _demo_stream(req.get('eventid', 0x40c0000), 5) + [_mk_log(5, 'p', 1), _mk_log(6, 'q', 2)]
+    stream = _demo_stream(req.get('eventid', 0x40c0000), 5) + [_mk_kevent(0x04010004, 5), _mk_kevent(0x04020008, 6), _mk_log(5, 'p', 1), _mk_log(6, 'q', 2)]
 
     class FakeParser:
         def __init__(self, *a, **k):
@@ -340,7 +340,7 @@ def do_filters_sequence(req):
 
 def do_filters_search(req):
     tried = 0
-    for fc, fsc in (([4], []), ([], []), ([7], []), ([], [0x040c]), ([3, 4], []), ([31], [0x0703])):
+    for fc, fsc in (([4], []), ([], []), ([7], []), ([], [0x040c]), ([3, 4], []), ([31], [0x0703]), ([4], [0x040c]), ([4, 7], [0x0301, 0x040c])):
         for tid in (None, 5, 4):
             for proc in (None, 'p', '2'):
                 cfg = {'filter_tid': tid, 'filter_process': proc, 'filter_class': fc, 'filter_subclass': fsc}
@@ -638,12 +638,12 @@ HANDLERS.update({'callstack_case': do_callstack_case, 'callstack_search': do_cal
 
 
 # ------------------------------------------------------------------------------ C02 / C06 refute mode
-def _v2_eval(threads, pad, records, preload=None, cut=None):
+def _v2_eval(threads, pad, records, preload=None, cut=None, is_64bit=1):
     import io
     from pykdebugparser.kd_buf_parser import KdBufParser
     from pykdebugparser.kevent import from_kd_buf
     from spec import container as S
-    data = S.build_v2(threads, pad, records)
+    data = S.build_v2(threads, pad, records, is_64bit=is_64bit)
     if cut is not None:
         data = data[:cut]
     tp, pn = dict(preload or {}), {k + 1000: 'old' for k in (preload or {})}
@@ -662,7 +662,9 @@ def do_v2_case(req):
     from spec import container as S
     threads = [tuple(t) for t in req['threads']]
     records = [bytes.fromhex(r) for r in req['records']]
-    data, got, err, tp, pn = _v2_eval(threads, req['pad'], records, preload=req.get('preload'))
+    if req.get('repeat'):
+        records = records * req['repeat']
+    data, got, err, tp, pn = _v2_eval(threads, req['pad'], records, preload=req.get('preload'), is_64bit=req.get('is_64bit', 1))
     exp = [from_kd_buf(r) for r in records]
     etp, epn = S.expected_tables(threads)
     what = ''
@@ -682,6 +684,18 @@ def do_v2_search(req):
     budget = req.get('budget', 500)
     skip_leading_zero = 'first-record-leading-zero' in (req.get('known') or [])
     tried = 0
+    # directed: many records (more than any internal block), and the header word that says "32-bit kernel" (the thread map
+    # entries are 32 bytes whatever it says: the tool's own sample dumps have it zero)
+    base_rec = struct.pack('<Q32sQIIQ', 1, bytes(range(32)), 2, 0x40c0004, 0, 0)
+    for req2 in ({'kind': 'v2_case', 'threads': [[1, 5, 'proc']], 'pad': 0, 'records': [base_rec.hex()], 'repeat': 1025, 'preload': None},
+                 {'kind': 'v2_case', 'threads': [[1, 5, 'proc']], 'pad': 8, 'records': [base_rec.hex()], 'repeat': 3000, 'preload': None},
+                 {'kind': 'v2_case', 'threads': [[1, 5, 'proc'], [2, 6, 'x']], 'pad': 0, 'records': [base_rec.hex()], 'is_64bit': 0, 'preload': None},
+                 {'kind': 'v2_case', 'threads': [[1, 5, 'launchd']], 'pad': 16, 'records': [base_rec.hex()] * 2, 'is_64bit': 0, 'preload': None}):
+        tried += 1
+        r = do_v2_case(req2)
+        if r['violates']:
+            r['request'] = req2
+            return {'tried': tried, 'bound': 'directed dumps (many records, 32-bit header word)', 'found': r}
     while tried < budget:
         n = rnd.choice([0, 1, 2, 3])
         threads = [(rnd.choice([1, 2, 3, 0x10]), rnd.choice([5, 6, 7]), rnd.choice(['a', 'proc', 'x' * 19, ''])) for _ in range(n)]
@@ -713,11 +727,11 @@ def _rec64(i, tid=5, code=0x40c0000, q=0):
     return struct.pack('<Q32sQIIQ', 1000 + i, struct.pack('<QQQQ', i, i + 1, i + 2, i + 3), tid, code | q, 0, 0)
 
 
-def _raw_log(i, with_proc=True):
-    d = {'cm': i % 3, 't': 'Log', 's': 'x', 'tid': 40 + i, 'ns': 1, 'mct': 2, 'b': b'b' * 16, 'piu': b'p' * 16,
+def _raw_log(i, with_proc=True, ids=(0, 1, 2)):
+    d = {'cm': ids[i % 3], 't': 'Log', 's': 'x', 'tid': 40 + i, 'ns': 1, 'mct': 2, 'b': b'b' * 16, 'piu': b'p' * 16,
          'ud': {'sec': 10 + i, 'usec': 5}, 'utz': {'mw': 0, 'dt': 0}}
     if with_proc:
-        d.update({'p': (i + 1) % 3, 'pid': 900 + i})
+        d.update({'p': ids[(i + 1) % 3], 'pid': 900 + i})
     if i % 2:
         # a trace identifier: signpost namespace (interval begin, process scope) on odd records, log namespace otherwise
         d['ti'] = ((0x1000 + i) << 32) | (0x02 << 24) | (0x81 << 8) | 6 if i % 4 == 1 else ((0x2000 + i) << 32) | (0x01 << 8) | 4
@@ -823,6 +837,7 @@ def do_v3_blocks_search(req):
     tried = 0
     strings = ['msg a', 'proc', 'msg c']
     while tried < budget:
+        ids = rnd.choice([(0, 1, 2), (1, 2, 3), (5, 9, 50), (2, 0, 1)])        # the index numbers its strings as it likes
         threads = [(rnd.choice([1, 2, 3]), rnd.choice([5, 6]), rnd.choice(['a', 'launchd'])) for _ in range(rnd.randint(0, 3))]
         nrec = rnd.randint(0, 7)
         recs = [_rec64(i) for i in range(nrec)]
@@ -839,13 +854,13 @@ def do_v3_blocks_search(req):
             elif kind in ('images', 'processes'):
                 payload = plistlib.dumps({'x': rnd.randint(1, 9)}, fmt=plistlib.FMT_BINARY)
             elif kind == 'log_events':
-                payload = plistlib.dumps({'Events': [_raw_log(rnd.randint(0, 5), rnd.random() < 0.7) for _ in range(rnd.randint(0, 2))]}, fmt=plistlib.FMT_BINARY)
+                payload = plistlib.dumps({'Events': [_raw_log(rnd.randint(0, 5), rnd.random() < 0.7, ids) for _ in range(rnd.randint(0, 2))]}, fmt=plistlib.FMT_BINARY)
             else:
-                payload = plistlib.dumps({'StringIndex': {s: i for i, s in enumerate(strings)}}, fmt=plistlib.FMT_BINARY)
+                payload = plistlib.dumps({'StringIndex': {s: ids[i] for i, s in enumerate(strings)}}, fmt=plistlib.FMT_BINARY)
             blocks.append((kind, payload))
         # the string index must be known for logs to resolve: make sure one strings block is present when logs are
         if any(b[0] == 'log_events' for b in blocks) and not any(b[0] == 'log_strings' for b in blocks):
-            blocks.append(('log_strings', plistlib.dumps({'StringIndex': {s: i for i, s in enumerate(strings)}}, fmt=plistlib.FMT_BINARY)))
+            blocks.append(('log_strings', plistlib.dumps({'StringIndex': {s: ids[i] for i, s in enumerate(strings)}}, fmt=plistlib.FMT_BINARY)))
         tried += 1
         req2 = {'kind': 'v3_case', 'threads': [list(t) for t in threads], 'chunks': [[r.hex() for r in c] for c in chunks],
                 'blocks': [[k_, p_.hex()] for k_, p_ in blocks], 'aligned': rnd.random() < 0.8,
@@ -1158,7 +1173,7 @@ def do_codes_search(req):
         for _ in range(rnd.randint(0, 5)):
             v = rnd.choice([0, 4, 0x40c0004, 0xffffffff, rnd.getrandbits(32), 8, 8])
             h = rnd.choice(['%x', '0x%x', '0X%X', '%X', '0x%08x']) % v
-            lines.append([h, rnd.choice([' ', '\t', '  \t ']), rnd.choice(['BSC_a', 'Zz', 'aa', 'MACH_x', 'n1']),
+            lines.append([h, rnd.choice([' ', '\t', '  \t ']), rnd.choice(['BSC_a', 'Zz', 'aa', 'MACH_x', 'n1', 'BSC_#164', 'IOKIT-x', 'a.b:c', 'Q++']),
                           rnd.choice(['', ' ', '\t\t#Params: a b', ' trailing words here'])])
         tried += 1
         r = do_codes_case({'lines': lines})
@@ -1243,6 +1258,20 @@ def do_supplied_table_case(req):
                 texts.append(str(r))
         if not viol and (not any('"/first"' in t and 'access' in t for t in texts) or not any('"/second"' in t and 'access' in t for t in texts)):
             viol, what = True, 'under a table that gives the name VFS_LOOKUP to two ids, lookups recorded under either id must reach the enclosing call: %r' % (texts,)
+        if not viol:
+            import io
+            import struct as _st
+            from spec import container as _S
+            from pykdebugparser.pykdebugparser import PyKdebugParser
+            recs_ = [_st.pack('<Q32sQIIQ', 1, bytes(32), 7, a | 1, 0, 0), _st.pack('<Q32sQIIQ', 2, _st.pack('<QQQQ', 0, 42, 0, 0), 7, a | 2, 0, 0)]
+            dump_ = _S.build_v2([(7, 3, 'p')], 0, recs_)
+            odd = {a | 1: codes[a], b | 2: codes[b]}           # ids that no event id (qualifier bits clear) can equal
+            pk = PyKdebugParser()
+            pk.color = False
+            tr_ = [str(t) for t in pk.traces(io.BytesIO(dump_), odd)]
+            lines_ = list(PyKdebugParser().formatted_kevents(io.BytesIO(dump_), odd))
+            if tr_ or any(codes[a] in ln for ln in lines_):
+                viol, what = True, 'under a supplied table whose only ids are %#x and %#x the event id %#x is decoded / named: %r %r' % (a | 1, b | 2, a, tr_, lines_[:2])
         if viol:
             pass
         elif third != exp_third:
@@ -1541,6 +1570,16 @@ def do_interleaving_search(req):
             if r['violates']:
                 r['request'] = {'kind': 'interleaving_case', 'programs': progs, 'order_a': base, 'order_b': alt}
                 return {'tried': tried, 'bound': 'directed two-thread programs, sequential vs alternating order', 'found': r, 'violates': True, 'what': r['what']}
+    # one thread's call spans a long stretch of another thread's records
+    long_progs = {'5': [list(pool[4]), list(pool[5])], '6': [['MACH_SCHED', 0, [1, 2, 3, 4], None]] * 70000}
+    base = ['5', '5'] + ['6'] * 70000
+    alt = ['5'] + ['6'] * 70000 + ['5']
+    tried += 1
+    r = do_interleaving_case({'programs': long_progs, 'order_a': base, 'order_b': alt})
+    if r['violates']:
+        r = {'violates': True, 'what': 'a call of thread 5 that spans 70000 records of thread 6: ' + r['what'][:400],
+             'request': {'kind': 'interleaving_search', 'budget': 0}}
+        return {'tried': tried, 'bound': 'one call spanning 70000 records of another thread', 'found': r, 'violates': True, 'what': r['what']}
     while tried < budget:
         progs = {}
         for t in ('5', '6'):
@@ -1997,3 +2036,173 @@ def do_headless_window_case(req):
 
 
 HANDLERS['headless_window_case'] = do_headless_window_case
+
+
+# ------------------------------------------------------------------------------ refute searches behind unsupported constructs
+def do_kd_buf_search(req):
+    """C01: structured and random 64-byte records against the kd_buf layout (spec/kdebug.py)"""
+    import random
+    import struct
+    from pykdebugparser.kevent import from_kd_buf
+    rnd = random.Random(req.get('seed', 0))
+    recs = [bytes(64), b'\xff' * 64]
+    for i in range(512):
+        b = bytearray(64)
+        b[i // 8] |= 1 << (i % 8)
+        recs.append(bytes(b))
+        recs.append(bytes(x ^ 0xff for x in b))
+    for _ in range(req.get('budget', 2000)):
+        b = bytearray(rnd.getrandbits(8) for _ in range(64))
+        for lo, hi in ((48, 52), (52, 56), (0, 8), (40, 48), (8, 40)):
+            if rnd.random() < 0.25:
+                b[lo:hi] = bytes(hi - lo)
+        recs.append(bytes(b))
+    tried = 0
+    for b in recs:
+        tried += 1
+        ts, data, tid, dbg, cpu, un = struct.unpack('<Q32sQIIQ', b)
+        want = {'timestamp': ts, 'data': data, 'values': struct.unpack('<QQQQ', data), 'tid': tid, 'debugid': dbg, 'eventid': dbg & 0xfffffffc,
+                'func_qualifier': dbg & 3}
+        try:
+            e = from_kd_buf(b)
+        except BaseException as ex:  # noqa
+            return {'tried': tried, 'found': {'violates': True, 'request': {'kind': 'kd_buf_case', 'record': b.hex()},
+                                              'what': 'from_kd_buf raised %s on the 64-byte record %s' % (type(ex).__name__, b.hex())}}
+        got = {k: getattr(e, k, None) for k in want}
+        if got != want:
+            k = next(k for k in want if got[k] != want[k])
+            return {'tried': tried, 'found': {'violates': True, 'request': {'kind': 'kd_buf_case', 'record': b.hex()},
+                                              'what': 'record %s decodes with %s = %r, its bytes say %r' % (b.hex(), k, got[k], want[k])}}
+    return {'tried': tried, 'found': None}
+
+
+def do_kd_buf_case(req):
+    r = do_kd_buf_search({'budget': 0})
+    import struct
+    from pykdebugparser.kevent import from_kd_buf
+    b = bytes.fromhex(req['record'])
+    ts, data, tid, dbg, cpu, un = struct.unpack('<Q32sQIIQ', b)
+    try:
+        e = from_kd_buf(b)
+    except BaseException as ex:  # noqa
+        return {'violates': True, 'what': 'from_kd_buf raised %s' % type(ex).__name__}
+    bad = (e.timestamp, e.data, e.tid, e.debugid, e.eventid, e.func_qualifier) != (ts, data, tid, dbg, dbg & 0xfffffffc, dbg & 3)
+    return {'violates': bad, 'what': 'decoded %r' % (e,) if bad else ''}
+
+
+def do_flags_search(req):
+    """C11: every flag decoder over single bits, zero, all ones and mixed words against spec/darwin.py (relaxed for field
+    values the headers do not define, as the contract is)"""
+    import random
+    from spec import darwin
+    sys.path.insert(0, os.path.dirname(os.path.dirname(os.path.abspath(__file__))))
+    from contracts import flags as C
+    rnd = random.Random(req.get('seed', 0))
+    words = [0, (1 << 64) - 1, (1 << 32) - 1, 1 << 31, (1 << 31) | 1, 0x80000001] + [1 << i for i in range(64)] + [rnd.getrandbits(64) for _ in range(60)] \
+        + [rnd.getrandbits(20) for _ in range(60)]
+    tried = 0
+    for mod, fn, ecls, tname, fname, zero in C.FUNCTIONS:
+        if req.get('functions') and fn not in req['functions']:
+            continue
+        f = _resolve('pykdebugparser.trace_handlers.' + mod, fn)
+        tbl = getattr(darwin, tname)
+        fields = getattr(darwin, fname) if fname else None
+        fmask = fields['mask'] if fields else 0
+        for w in words:
+            tried += 1
+            try:
+                names = [m.name for m in f(w)]
+            except BaseException as ex:  # noqa
+                return {'tried': tried, 'found': {'violates': True, 'request': {'kind': 'flags', 'module': 'pykdebugparser.trace_handlers.' + mod, 'func': fn, 'word': w,
+                                                                                'probe': {'raises': False}},
+                                                  'what': '%s(%#x) raised %s' % (fn, w, type(ex).__name__)}}
+            declared = {m.name: m.value for m in _resolve('pykdebugparser.trace_handlers.' + mod, ecls).__members__.values()}
+            for n, v in declared.items():
+                if tbl.get(n) != v:
+                    return {'tried': tried, 'found': {'violates': True, 'request': {'kind': 'flags_case', 'function': fn, 'word': w},
+                                                      'what': '%s.%s = %#x, Darwin defines %r' % (ecls, n, v, tbl.get(n))}}
+                if n in C.MASK_NAMES or (fmask and v & fmask) or v == 0 or v & (v - 1):
+                    continue
+                if bool(w & v) != (n in names):
+                    return {'tried': tried, 'found': {'violates': True, 'request': {'kind': 'flags_case', 'function': fn, 'word': w},
+                                                      'what': '%s(%#x) = %r: %s (%#x) is %s' % (fn, w, names, n, v, 'set but not shown' if w & v else 'shown but not set')}}
+            if zero is not None:
+                any_bit = any(v and not v & (v - 1) and w & v for v in declared.values())
+                if (zero in names) and any_bit:
+                    return {'tried': tried, 'found': {'violates': True, 'request': {'kind': 'flags_case', 'function': fn, 'word': w},
+                                                      'what': '%s(%#x) = %r shows the zero name %s although declared bits are set' % (fn, w, names, zero)}}
+    import struct
+    from pykdebugparser.traces_parser import TracesParser
+    codes = _cached_codes()
+    inv = {v: k for k, v in codes.items()}
+    for dname, field, widx, mod, ecls, tname in C.INLINE:
+        if dname not in inv:
+            continue
+        declared = {m.name: m.value for m in _resolve('pykdebugparser.trace_handlers.' + mod, ecls).__members__.values()}
+        for n, v in declared.items():
+            if not v or v & (v - 1):
+                continue
+            for w in (v, v | 1, (1 << 32) - 1):
+                tried += 1
+                vals = [3, 0x7000, 16, 0]
+                vals[widx] = w
+                p = TracesParser(codes, {}, {})
+                try:
+                    p.feed(_ev_raw(inv[dname], 5, 1, struct.pack('<QQQQ', *vals)))
+                    t = p.feed(_ev_raw(inv[dname], 5, 2, struct.pack('<QQQQ', 0, 16, 0, 0)))
+                    names = [getattr(m, 'name', str(m)) for m in getattr(t, field)]
+                except BaseException as ex:  # noqa
+                    return {'tried': tried, 'found': {'violates': True, 'request': {'kind': 'flags_search'},
+                                                      'what': '%s with %s word %#x raised %s' % (dname, field, w, type(ex).__name__)}}
+                if n not in names:
+                    return {'tried': tried, 'found': {'violates': True, 'request': {'kind': 'flags_search'},
+                                                      'what': '%s with the %s word %#x shows %r: %s (%#x) is set but not shown' % (dname, field, w, names, n, v)}}
+    return {'tried': tried, 'found': None}
+
+
+def do_arg_fidelity_search(req):
+    """C09 refute mode: for the given decoders the call part is a function of the START record alone: decoding the same START
+    with two different END records must give the same text up to the closing parenthesis of the call"""
+    import struct
+    from pykdebugparser.traces_parser import TracesParser
+    codes = _cached_codes()
+    inv = {v: k for k, v in codes.items()}
+    starts = [(0x1111111111, 0x2222222222, 0x3333333333, 0x4444444444), (3, 0x7000, 128, 0xffffffffffffffff), (1 << 63, 1, (1 << 64) - 1, 5)]
+    ends = [(0, 0x7777777777, 0x8888888888, 0x9999999999), (0, 5, 6, 7), (0, 0, 0, 0)]
+    tried = 0
+
+    def call_part(name, sv, ev):
+        p = TracesParser(codes, {}, {})
+        p.feed(_ev_raw(inv[name], 5, 1, struct.pack('<QQQQ', *sv)))
+        t = p.feed(_ev_raw(inv[name], 5, 2, struct.pack('<QQQQ', *ev)))
+        text = str(t) if t is not None else ''
+        if '(' not in text:
+            return text, text
+        depth = 0
+        for i, ch in enumerate(text):
+            depth += ch == '('
+            depth -= ch == ')'
+            if ch == ')' and depth == 0:
+                return text[:i + 1], text
+        return text, text
+    for name in req['decoders']:
+        if name not in inv:
+            continue
+        for sv in starts:
+            parts = []
+            for ev in ends:
+                tried += 1
+                try:
+                    parts.append(call_part(name, sv, ev))
+                except BaseException:  # noqa
+                    parts.append((None, None))
+            seen = [p for p in parts if p[0] is not None]
+            if len(set(p[0] for p in seen)) > 1:
+                return {'tried': tried, 'found': {'violates': True, 'request': {'kind': 'arg_fidelity_search', 'decoders': [name]},
+                                                  'what': '%s: with the same START record %r the call part depends on the END record: %r' % (
+                                                      name, sv, sorted(set(p[1] for p in seen)))}}
+    return {'tried': tried, 'found': None}
+
+
+HANDLERS.update({'kd_buf_search': do_kd_buf_search, 'kd_buf_case': do_kd_buf_case, 'flags_search': do_flags_search,
+                 'arg_fidelity_search': do_arg_fidelity_search})
